@@ -6,6 +6,7 @@ import json
 import random
 import warnings
 
+from .treejson import E  # noqa: E402
 from . import build as B, gen_fuzz, gen_hist, gen_pos, treejson as TJ
 from .core import Outcome, stable_hash
 
@@ -205,6 +206,14 @@ def messages(tier, seed):
         cls, msg = gen_hist.random_message(g, state, 100 + k)
         text = TJ.to_text(pretty(msg) if k % 2 else msg)
         out.append((f'random {cls} #{k}', text, TJ.to_text(state)))
+    # header fields sent EMPTY (an optional leaf tag with no text), alone and among filled ones
+    for k_, ch in enumerate(([E('roTrigger')], [E('roSlug', text='s'), E('roEdStart'), E('roTrigger', text='t')], [E('macroRoIn', text=''), E('roChannel', attrs={'feed': 'b'})],
+                             [B.timing_md(duration='5'), E('roEdDur')])):
+        for variant, tree in (('compact', B.metadata_replace(ch)), ('pretty', pretty(B.metadata_replace(ch)))):
+            out.append((f'roMetadataReplace with empty leaf tags #{k_}|{variant}', TJ.to_text(tree), None))
+        rr_ = B.ro_replace([B.story('A', [])], message_id='9')
+        TJ.find(rr_, 'roReplace')[4][2:2] = [list(c) for c in ch]
+        out.append((f'roReplace with empty leaf tags #{k_}', TJ.to_text(rr_), None))
     # running-order documents are messages too (roCreate): inspect() lists the stories whatever their timing metadata says
     gj = gen_hist.Gen(random.Random(seed * 29 + 3), corner_durations=True)
     for k in range(12 if tier == 'quick' else 300):
